@@ -1,16 +1,16 @@
 /-
   C07, record scanners: the ORIGIN reader (`originField`) never panics when the declared length
-  is non-negative and the input has fewer than 10^9 bytes left.
+  is non-negative (the range check of `GenBankParser`).
   * `validateOrigin` indexes its buffer unchecked; on a buffer of exactly `toOriginLength length`
-    bytes every index is in range as long as each line index `%9d` is nine columns wide
-    (`length < 10^9`): a line consumes `9 + groups + 1` bytes and the line sizes add up to
-    `toOriginLength` (`tl_step`).
+    bytes every index is in range as long as each line index `%9d` is nine columns wide: a line
+    consumes `9 + groups + 1` bytes and the line sizes add up to `toOriginLength` (`tl_step`).
+    The lines start at residue `i + 1` with `i` a multiple of 60 below `length`; for
+    `length ≤ 1000000020 = 60 · 16666667` (the guard `maxOriginResidues` of be672b0) that is at
+    most 999999961: nine digits.  For `length = 1000000021` the last line starts at 1000000021:
+    ten digits, and a WELL-FORMED block makes `validateOrigin` index one byte past its buffer
+    (`Gts.C07.validateOrigin_wide_index_panics`): the constant is exactly right.
   * the slow path writes into `make([]byte, toOriginLength length)`; the same count shows that the
-    store of the line feed is in range (`slowLines_ne_panic` of C16).
-  * `state.Request(n)` succeeded, so `length ≤ toOriginLength length ≤ bytes left < 10^9`.
-  For `length ≥ 10^9 + 21` the line index is ten columns wide and a WELL-FORMED block makes
-  `validateOrigin` index one byte past its buffer: that panic is real (it needs an input of more
-  than a gigabyte) and is why the bound is a hypothesis.
+    store of the line feed is in range (`slowLines_ne_panic_le` of C16).
   Core Lean only.
 -/
 import Gts.Lemmas.GbSafe
@@ -185,9 +185,9 @@ theorem slowLines_rest_le (length : Int) (cap : Nat) : ∀ f i st acc out st',
           · cases h
     · cases h; exact Nat.le_refl _
 
-/-- `makeGenbankOriginParser(length)`: with a declared length in range and fewer than 10^9 bytes
-left, neither the negative `Request`, nor `validateOrigin`'s indexing, nor the slow path's store
-can panic -/
+/-- `makeGenbankOriginParser(length)`: with a declared length in range, neither the negative
+`Request`, nor `validateOrigin`'s indexing (a length above 1000000020 is refused first), nor the
+slow path's store can panic -/
 theorem originField_safeS (length : Int) (d : Nat) (h0 : 0 ≤ length) :
     SafeS L (originField length d) := by
   intro s h
